@@ -832,6 +832,12 @@ func (m *Model) applyPull1(c Call, o Obs) []Hit {
 		}
 		return nil
 	}
+	if c.Op.Tgt == "abandon" && (o.Err == "DeadlineExceeded" || o.Err == "Canceled") {
+		// the client gave up while the server was waiting: nothing was delivered, but
+		// it was a pull - the idle clock restarted somewhere within the call
+		m.touch(s, Iv{o.T0, o.T1})
+		return nil
+	}
 	if o.Err != "" {
 		props := pC01
 		if c.Op.Tgt == "wait" {
@@ -842,7 +848,7 @@ func (m *Model) applyPull1(c Call, o Obs) []Hit {
 		return []Hit{hit("pull-failed", props, "Pull%s on live subscription %s failed: %s", c.Op.Tgt, c.Op.Sub, o.Err)}
 	}
 	call := o.Call()
-	wait := c.Op.Tgt == "wait"
+	wait := c.Op.Tgt == "wait" || c.Op.Tgt == "abandon"
 	start := call
 	if wait {
 		// a blocking pull answers at the instant something became deliverable (or at
@@ -1596,7 +1602,8 @@ func (m *Model) Digest(now time.Time, bucket time.Duration) string {
 					held = i + 1
 				}
 			}
-			fmt.Fprintf(&b, " m%d %s a%d due=%s exp=%s enq=%s mp=%v h=%d l=%v id=%v\n", d.Msg, d.State, d.Attempts, rd(d.Due.Lo), rd(d.Exp.Lo), rd(d.Enq.Lo), d.MaybePruned, held, d.Leased, d.AckID != "")
+			// (when it was retired decides what an age-thresholded prune job may remove later)
+			fmt.Fprintf(&b, " m%d %s a%d due=%s exp=%s enq=%s ret=%s mp=%v h=%d l=%v id=%v\n", d.Msg, d.State, d.Attempts, rd(d.Due.Lo), rd(d.Exp.Lo), rd(d.Enq.Lo), rd(d.RetiredAt.Lo), d.MaybePruned, held, d.Leased, d.AckID != "")
 		}
 	}
 	tn := make([]string, 0, len(m.Topics))
